@@ -126,6 +126,14 @@ static inline void str_resize(str_t *s, unsigned long k) {
   MODEL_LIMIT(s->off + (long)k <= (long)g_n && k <= 0x7ffffffful, "room behind the string in the ghost buffer (resize)");
   s->n = k;     /* bytes gained by growth are left arbitrary (libstdc++ zero-fills) */
 }
+/* basic_string::erase(first, last): only erasure of a PREFIX is modelled (first == begin()): the view
+ * moves forward over the erased bytes; the remaining bytes keep their contents, every iterator into the
+ * string is invalidated as in C++ (the caller must not use old ones) */
+static inline it_t str_erase(str_t *s, it_t first, it_t last) {
+  MODEL_PRE(s->off <= first && first <= last && last <= s->off + (long)s->n, "string::erase requires a valid range of the string");
+  MODEL_LIMIT(first == s->off, "only erasure of a prefix of the string is modelled");
+  s->n -= (unsigned long)(last - first); s->off = last; return s->off;
+}
 static inline char *str_data(const str_t *s) { return g_buf + s->off; }
 static inline const char *str_at(const str_t *s, unsigned long i) {
   MODEL_PRE(i <= s->n, "string[i] requires i <= size()");
